@@ -4,7 +4,7 @@
 (* JSON scenario: the source image, the placement class, the option program  *)
 (* in the driver's vocabulary (harness/cmd/c13drv/opts.go), whether every    *)
 (* option is a no-op by its documented meaning, and what the design spec     *)
-(* predicts for the code as it is (error or not, per child the layer         *)
+(* predicts for the code as it is now (all Fix switches on; error or not, per child the layer         *)
 (* identities and the history sequence, media type / content truthfulness).  *)
 EXTENDS ModMC, Json
 
